@@ -946,12 +946,14 @@ class C03(Prop):
     ]
     partial = [
         "C03_invert_partial: proved = reversed cell sequence; for the five closed-form pairs the inverted chop is "
-        "accepted and returns (n, 1/E) (ratios 1 or outside the tolerance band together with their reciprocal); "
-        "for (count,start)/(count,end) same count and reciprocal expansion for every sound brentq oracle that answers "
-        "on the mirrored call; for the three pairs whose count is a brentq root the mirrored equation has the same "
-        "unique root and the same d_min. Missing = totality of the oracle on the mirrored input, assembling the three "
-        "root-count plans, ratios inside the tolerance band, count=1 with a size (known finding); all of it "
-        "validated by the inversion correspondence and the direct oracle",
+        "accepted and returns (n, 1/E) (ratios 1 or outside the tolerance band together with their reciprocal); for all "
+        "ten pairs and every sound brentq oracle the FULL statement (inverted chop returns the same count and the "
+        "reciprocal expansion) under two explicit hypotheses: inv_ok (given ratios/sizes positive; tolerance band "
+        "entered on both sides or on neither: band_ok for c2c, band_sym for the total expansion) and "
+        "calculate (invert d) <> None. Remaining = acceptance of the inverted chop for the five pairs that go through "
+        "brentq (needs scipy to converge on the mirrored input; false for count=1 with a size - known finding) and "
+        "ratios inside the tolerance band on one side only (law holds up to n*TOL); both validated by the inversion "
+        "correspondence and the direct oracle",
         "C03_size_rounded: ratios with 0 < |r-1| <= TOL are treated as 1 by the code; the law then holds up to n*TOL "
         "(validated, not proved)",
     ]
